@@ -572,6 +572,13 @@ func evaluate(c *caseJ, sum *vh.Summary, cw *vh.CaseWriter, verbose bool) {
 		cw.Add(coqCase(c, o), c)
 	}
 	sum.Hist("mode:" + c.Mode)
+	if c.Mode == "ok" {
+		if c.InModel {
+			sum.Hist("ok:ascii-heads(in theorem domain)")
+		} else {
+			sum.Hist("ok:utf8-heads(oracle only)")
+		}
+	}
 	sum.Hist("reader:" + c.Reader)
 	if c.Full != nil {
 		sum.Hist("with-full-reader")
@@ -663,6 +670,13 @@ func main() {
 		"EDI inputs run through edi.NewNonValidatingReader and edi.NewReader; non-trivial = an 'ok' case (logical segments encoded by the generator's inverse, oracle evaluated) in which at least one data value contains a delimiter or the release character, so that escaping decides the result; distinct by (configuration, input bytes, chunking, declarations)")
 	cw := vh.NewCaseWriter(o, "C07", "Base.Utf8 Model.Edi", "ecase", "check_case")
 	cw.PerFile = 120
+	// the initial scanner buffer is an exported knob of the package; long segments are sized against it
+	if edi.ReaderBufSize >= 16 && edi.ReaderBufSize <= 512 {
+		bufSize = edi.ReaderBufSize
+	} else {
+		edi.ReaderBufSize = bufSize
+	}
+	sum.Extra["reader_buf_size"] = bufSize
 
 	if o.Replay != "" {
 		c, err := loadCase(o.Replay)
